@@ -20,6 +20,7 @@ from contracts import common as K
 from contracts import envs as E
 
 ENV = "JobShop"
+PROPS = ("C01", "C04", "C05", "C06", "C08", "C09", "C11", "C12")  # properties this module has clauses for
 
 
 def dims(env):
